@@ -37,6 +37,18 @@ class PyCore:
         )
         self.observer = rope.base.resourceobserver.FilteredResourceObserver(observer)
         self.project.add_observer(self.observer)
+        # a created or moved resource (or any outside change reported through
+        # `Project.validate()`) can change what the imports of cached modules
+        # resolve to, so the data concluded from them has to be recomputed
+        forget = self._forget_concluded_data
+        self.project.add_observer(
+            rope.base.resourceobserver.ResourceObserver(
+                moved=forget, created=forget, removed=forget, validate=forget
+            )
+        )
+
+    def _forget_concluded_data(self, resource=None, new_resource=None):
+        self.module_cache.forget_all_data()
 
     def _init_automatic_soa(self):
         if not self.automatic_soa:
